@@ -46,8 +46,12 @@ func (lookup *TypeLookup) AddUserType(t *UserType) error {
 		case *UserType:
 			return nil
 		case *BuiltinType:
-			// The parser should prevent this from ever happening
-			return &userBaseTypeNameError
+			// The parser prevents this for the keyword types, but not
+			// for file.
+			return &wrapError{
+				innerError: &userBaseTypeNameError,
+				loc:        t.Node.Loc,
+			}
 		case AstNodable:
 			return &wrapError{
 				innerError: &duplicateOfStructTypeError,
@@ -87,8 +91,12 @@ func (lookup *TypeLookup) AddStructType(t *StructType) error {
 				return nil
 			}
 		case *BuiltinType:
-			// The parser should prevent this from ever happening
-			return fmt.Errorf("type name conflicts with a base type")
+			// The parser prevents this for the keyword types, but not
+			// for file.
+			return &wrapError{
+				innerError: fmt.Errorf("type name conflicts with a base type"),
+				loc:        t.Node.Loc,
+			}
 		case AstNodable:
 			return &wrapError{
 				innerError: &duplicateOfStructTypeError,
